@@ -39,10 +39,35 @@ FullVerdict(e) ==
           ELSE IF e.preads # e.vals THEN "parsed_value"
           ELSE "ok"
 
+(* ---------------- C01: parse -> encode is the identity on canonical text within the defined shape ---------------- *)
+\* e = [k |-> "rt", api, text, out, outcome, shape : Seq(<<i, kind, ncomp, nsubs : Seq(Nat)>>), open (BOOLEAN), fam]
+Esc == INSTANCE Escape
+EscEc(e) == [F |-> e.ec[1], C |-> e.ec[2], S |-> e.ec[3], R |-> e.ec[4], E |-> e.ec[5], T |-> e.ec[6]]
+RowOf(e, n) == IF \E k \in 1..Len(e.shape) : e.shape[k][1] = n THEN e.shape[CHOOSE k \in 1..Len(e.shape) : e.shape[k][1] = n] ELSE <<0, "none", 0, <<>>>>
+FieldWithin(e, f, n) ==
+  LET row == RowOf(e, n) IN
+  IF EmptyField(f) THEN TRUE
+  ELSE IF row[2] = "none" THEN e.open           \* beyond the defined fields: only open-ended segments
+  ELSE IF row[2] = "varies" THEN TRUE
+  ELSE \A r \in 1..Len(f) :
+         /\ Len(f[r]) <= (IF row[2] = "base" THEN 1 ELSE row[3])
+         /\ \A c \in 1..Len(f[r]) : Len(f[r][c]) <= (IF row[2] = "base" THEN 1 ELSE IF c <= Len(row[4]) THEN row[4][c] ELSE 1)
+LeafOk(e, t) == NoEdgeBlank(t) /\ Esc!WellFormed(t, EscEc(e), e.fam)
+RtPremise(e) ==
+  LET seg == ParseSeg(e.text, Ec(e))
+      lo == IF seg.name = MSHname THEN 3 ELSE 1 IN
+  /\ NoTrailSeg(seg)
+  /\ \A n \in lo..Len(seg.fields) :
+        /\ FieldWithin(e, seg.fields[n], n)
+        /\ \A x \in FieldLeaves(seg.fields[n]) : LeafOk(e, x.t)
+        /\ \A r \in 1..Len(seg.fields[n]) : Len(seg.fields[n]) = 1 \/ ~EmptyRep(seg.fields[n][r])   \* no empty repetition
+RtVerdict(e) == IF e.outcome # "ok" THEN "raised" ELSE IF e.out # e.text THEN "text_changed" ELSE "ok"
+
 Verdict(e) == CASE e.k = "pos" -> PosVerdict(e)
+                [] e.k = "rt" -> RtVerdict(e)
                 [] e.k = "full" -> FullVerdict(e)
                 [] OTHER -> "unknown_event_kind"
-Premise(e) == TRUE
+Premise(e) == IF e.k = "rt" THEN RtPremise(e) ELSE TRUE
 
 Init == l = 1 /\ nontriv = 0 /\ failed = 0
 Next == /\ l <= Len(Events)
